@@ -80,7 +80,7 @@ func (x *Exec) isVisible(f *Frame, instr ssa.Instruction) bool {
 				}
 				return true
 			}
-			if fn.Pkg == x.P.Target && fn.Name() == "vYield" {
+			if fn.Pkg == x.P.Target && (fn.Name() == "vYield" || fn.Name() == "vWaitOthers" || fn.Name() == "vSettle") {
 				return true
 			}
 		}
@@ -91,6 +91,14 @@ func (x *Exec) isVisible(f *Frame, instr ssa.Instruction) bool {
 func (x *Exec) enabled(t *Thread) bool {
 	if t.done {
 		return false
+	}
+	if t.isEnv && x.P.Cfg.PromptClock {
+		// discrete-event time: a timer fires only when no goroutine can run
+		for _, o := range x.threads {
+			if !o.isEnv && !o.done && (o.blocked == nil || o.blocked()) {
+				return false
+			}
+		}
 	}
 	if t.blocked != nil {
 		if t.blocked() {
